@@ -4,10 +4,12 @@ mod compat;
 mod coord;
 mod digest;
 mod execb;
+mod fileid;
 mod gram;
 mod lex;
 mod limits;
 mod linecol;
+mod namerc;
 mod names;
 mod parse;
 mod sb;
@@ -42,6 +44,11 @@ fn main() {
         "scalars-replay" => scalars::replay(rest),
         "scalars-revalidate" => scalars::revalidate(rest),
         "digest" => digest::run(rest),
+        "namerc-replay" => namerc::replay(rest),
+        "namerc-stress" => namerc::stress(rest),
+        "fileid-schedules" => fileid::schedules(rest),
+        "fileid-pack" => fileid::pack(rest),
+        "fileid-shared" => fileid::shared(rest),
         "sb-replay" => sb::replay(rest),
         "sb-corpus" => sb::corpus(rest),
         "str-replay" => strs::replay(rest),
